@@ -9,6 +9,7 @@ CONSTANTS
   MaxAdds = 1000000
   MaxEnds = 1000000
   AtomicAdd = FALSE
+  ClosedRefuses = TRUE
   SplitGet = FALSE
   RecheckOnStore = TRUE
   StaleTimers = FALSE
